@@ -7,6 +7,11 @@ def T(qcases, tcases, qbudget=240, tbudget=1500, workers=16):
             "thorough": dict(cases=tcases, budget_s=tbudget, workers=workers)}
 
 PROPS = {
+    "C10": dict(sources=["props/C10.cpp"], jls=True, mrb_size=1 << 16, tiers=T(600, 12000, workers=12), fuzz=dict(workers=4, quick=40, thorough=900, max_len=2048),
+                assumptions=["instance pointers are live, data pointers valid, strings NUL-terminated, caller buffers exactly the documented size (1 byte where the call must be rejected)",
+                             "a reader/raw handle/copy is never opened on the file an open writer is writing (jls_rd_open would repair it underneath the writer)",
+                             "the threaded writer only queues data calls: wrong-id data calls are judged by C06 (nothing reaches the file), not by their return code",
+                             "gaps are bounded to 200000 samples and sample counts to 100000 so that valid requests stay cheap; huge allocations may fail with NOT_ENOUGH_MEMORY (accepted)"]),
     "C04": dict(sources=["props/C04.cpp"], jls=True, level="fault_enumeration", enumerate=True, tiers=T(60, 1200, qbudget=300, tbudget=1800),
                 enum_timeout={"quick": 600, "thorough": 2400}, worker_variants=["fast", "fast", "fast", "asan"],
                 assumptions=["'certain' class: <= 3 flipped bits or one burst <= 32 bits per protected region; zeroed/overwritten ranges are also judged (a 2^-32 CRC collision would be reported as a violation and needs manual triage)",
@@ -76,6 +81,11 @@ PROPS = {
 HOOK_COMMITS = ["6203c3e4032b5e35344eee56bc8020982a6abdeb"]
 
 MANIFEST_TEXT = {
+    "C10": dict(
+        engine="rapidcheck + libFuzzer",
+        technique="structure-aware API-sequence fuzzing: one decoder from a tape of choices to call sequences over the whole public surface, driven by rapidcheck (shrinking) and by libFuzzer (coverage guidance), ASan/LSan + return-code oracle inside the target",
+        level_text="Call sequences over jls_wr_*, jls_twr_* (64 KiB queue), jls_rd_*, jls_copy and jls_raw_* with arbitrary ids, enum values, definition fields, windows, increments and lengths; buffers are exact-size heap blocks. Violations: any sanitizer report (out-of-bounds, use-after-free, leak after all closes, leaked descriptor), fatal signal, I/O-budget overrun/timeout, an invalid call that returns 0, a valid in-range read that is refused, or a rejected writer call that changed the file bytes. 12 rapidcheck workers + 4 libFuzzer workers per run; every failure is replayable as JSON.",
+        level_note="Trusted: the decoder's bookkeeping of what is defined (mirrors the documented rules), ASan/LSan. Coverage guidance is approximate w.r.t. the seed; the saved JSON case is the reproducible unit."),
     "C04": dict(
         technique="fault injection: bit/burst/range corruption operators aimed at the CRC regions found by the independent decoder, each altered file judged through the full reader dump against the baseline dump; exhaustive single-bit and <=3-bit header enumerations",
         level_text="Complete: all 2.8 million 1/2/3-bit patterns of a 32-byte header (incl. the CRC field) against jls_crc32c_hdr, and every single-bit flip of every byte of small generated files judged through open + full dump. Sampled: 1-3 bit flips, <=32-bit bursts, multi-region combinations (END chunk, file header), zeroed and randomised ranges on generated multi-track files. Every reader result must be an error, the baseline's value, or - only when the open repaired the file - a prefix of it; an I/O budget turns endless loops into failures.",
